@@ -174,6 +174,8 @@ try:
     import gen_lines
     MODULES['Lines'] = gen_lines.generate
     MODULES['LinesMutants'] = gen_lines.generate_mutants
+    MODULES['Lines2'] = gen_lines.generate2
+    MODULES['Lines2Mutants'] = gen_lines.generate_mutants2
 except ImportError:
     pass
 
